@@ -309,6 +309,86 @@ class Registry(Harness):
         return (R._handlers.get("fshp") is F.fshp, "fshp" in R.list_crypt_handlers(True))
 
 
+class RegistryImport(Harness):
+    """first lookups of registry names whose handler module has NOT been imported yet: the threads go through the
+    real import system.  The per-module import lock (importlib._bootstrap._ModuleLock) is replaced by a
+    scheduler-aware lock and `_load_unlocked` is instrumented, so a second thread can be scheduled between
+    "module object placed in sys.modules" and "module body finished" -- the window the import lock exists for."""
+
+    name = "registry_import"
+    MOD = "passlib.handlers.roundup"
+    NAMES = ("roundup_plaintext", "ldap_hex_md5", "ldap_hex_sha1")
+
+    def __init__(self, ops):
+        self.ops = ops
+
+    def codes(self):
+        import importlib._bootstrap as B
+
+        import passlib.registry as R
+
+        return [R.get_crypt_handler, R.register_crypt_handler, R._PasslibRegistryProxy.__getattr__, B._load_unlocked]
+
+    def locks(self, s):
+        import importlib._bootstrap as B
+
+        undo = super().locks(s)
+
+        class SchedModuleLock:
+            def __init__(self, name):
+                self.name = name
+                self._lock = s.make_lock(f"import:{name}")
+
+            def acquire(self):
+                self._lock.acquire()
+                return True
+
+            def release(self):
+                self._lock.release()
+
+            def __repr__(self):
+                return f"SchedModuleLock({self.name!r})"
+
+        undo.append((B, "_ModuleLock", B._ModuleLock))
+        B._ModuleLock = SchedModuleLock
+        return undo
+
+    def fresh(self):
+        import importlib._bootstrap as B
+        import sys
+
+        import passlib.handlers as HP
+        import passlib.registry as R
+
+        for n in self.NAMES:
+            R._handlers.pop(n, None)
+        sys.modules.pop(self.MOD, None)
+        vars(HP).pop(self.MOD.rsplit(".", 1)[1], None)
+        B._module_locks.pop(self.MOD, None)
+        return {}
+
+    def body(self, st, op):
+        import passlib.hash as PH
+        import passlib.registry as R
+
+        kind, n = op.split(":")
+        if kind == "get":
+            return lambda: R.get_crypt_handler(n).name
+        if kind == "attr":
+            return lambda: getattr(PH, n).name
+        if kind == "get_default":
+            return lambda: getattr(R.get_crypt_handler(n, None), "name", None)
+        raise KeyError(op)
+
+    def post(self, st):
+        import sys
+
+        import passlib.registry as R
+
+        mod = sys.modules.get(self.MOD)
+        return tuple((n, n in R._handlers, mod is not None and R._handlers.get(n) is getattr(mod, n, None)) for n in self.NAMES)
+
+
 class ContextRecords(Harness):
     name = "context_records"
 
@@ -478,6 +558,8 @@ def make_harness(spec):
         return Backend(kind[len("backend_"):], ops)
     if kind == "registry":
         return Registry(ops)
+    if kind == "registry_import":
+        return RegistryImport(ops)
     if kind == "context_records":
         return ContextRecords(ops)
     if kind == "post_init":
@@ -651,6 +733,8 @@ def harness_specs(quick):
     add("lazy_b64", ("encode", "decode"), b2)
     add("lazy_b64", ("encode", "decode"), 1 if quick else 2, "instruction")
     add("registry", ("get", "attr"), b2)
+    add("registry_import", ("get:ldap_hex_md5", "get:ldap_hex_sha1"), b2)
+    add("registry_import", ("attr:roundup_plaintext", "get:roundup_plaintext"), b2)
     add("context_records", ("verify_admin", "needs_update_admin"), b2)
     add("context_records", ("identify", "verify_none"), b2)
     add("context_records", ("hash_admin", "disable"), 1 if quick else 2)
@@ -676,6 +760,7 @@ def harness_specs(quick):
         add("lazy_context", ("verify", "identify"), 1, "instruction")
         add("lazy_b64", ("encode", "decode", "int"), 2)
         add("registry", ("get", "attr", "get_default"), 2)
+        add("registry_import", ("get:ldap_hex_md5", "attr:ldap_hex_sha1", "get_default:roundup_plaintext"), 2)
         add("context_records", ("verify_admin", "needs_update_admin", "identify"), 2)
         for hn in ("md5_crypt", "sha256_crypt", "sha1_crypt", "des_crypt"):
             add(f"backend_{hn}", ("hash", "verify", "has_backend"), 2)
